@@ -239,18 +239,24 @@ def _shorten(o, limit=600):
     return dict(truncated=s[:limit] + '...')
 
 
-def binding_demo(check, name, module, cfg, record, corrupt, expect_clause):
-    """Corrupt one field of a valid record; the trace spec must reject it with expect_clause."""
-    good, _ = tlc.validate_trace(module, cfg, [record], tag='bind')
-    if good[0].get('failed'):
-        return False   # record itself is rejected; caller reports that separately
-    bad = corrupt(json.loads(json.dumps(record)))
-    v, _ = tlc.validate_trace(module, cfg, [bad], tag='bind')
-    if expect_clause not in v[0].get('failed', []):
-        raise MachineryError(f'binding demonstration {name}: corrupted record not rejected with '
-                             f'{expect_clause}: {v[0]}')
-    check.parts.append(dict(part=name, kind='binding-demo', rejected_with=expect_clause))
-    return True
+def binding_demo(check, name, module, cfg, record, corrupt, expect_clause, candidates=None):
+    """Corrupt one field of an accepted record; the trace spec must reject it with expect_clause.
+    `candidates` (optional list of records) are tried in turn when a record is unsuitable (already
+    rejected, or the corruption does not touch a checked value); at least one must demonstrate the binding."""
+    cands = [record] + list(candidates or [])
+    last = None
+    for rec in cands[:6]:
+        good, _ = tlc.validate_trace(module, cfg, [rec], tag='bind')
+        if good[0].get('failed'):
+            continue
+        bad = corrupt(json.loads(json.dumps(rec)))
+        v, _ = tlc.validate_trace(module, cfg, [bad], tag='bind')
+        last = v[0]
+        if expect_clause in v[0].get('failed', []):
+            check.parts.append(dict(part=name, kind='binding-demo', rejected_with=expect_clause))
+            return True
+    raise MachineryError(f'binding demonstration {name}: no corrupted record was rejected with '
+                         f'{expect_clause}: {last}')
 
 
 def tlc_dump_states(module, cfg, *, workers=4, cache=None, timeout=3600):
